@@ -99,6 +99,29 @@ def run_shard(rec):
                         rec.drop()
                         continue
                     run_grammar(rec, G, list(gen.all_strings('abB' if icase else 'ab', 4)), ('regex-pair', cname, r1, r2), trace=(idx % 6 == 0))
+    # Phase A4: Backtrack that can fail (fewer characters behind the position than it asks for) --
+    # the generators elsewhere only place it behind a consuming token
+    REST = ('re', '[ab]*', False)
+    BT = [
+        ('alone', ('backtrack', 1)),
+        ('alone0', ('backtrack', 0)),
+        ('alt-first', ('seq', [('alt', [('backtrack', 1), ('str', 'a')]), REST])),
+        ('after-opt', ('seq', [('opt', ('str', 'a')), ('backtrack', 1), REST])),
+        ('after-star-2', ('seq', [('star', ('str', 'a')), ('right', ('backtrack', 2), REST)])),
+        ('opt-of', ('seq', [('opt', ('str', 'a')), ('opt', ('backtrack', 2)), REST])),
+        ('in-alt-later', ('seq', [('opt', ('str', 'a')), ('alt', [('seq', [('backtrack', 2), ('str', 'aa')]), ('seq', [('backtrack', 1), ('str', 'a')]), ('str', 'b')]), REST])),
+        ('expect', ('seq', [('opt', ('str', 'a')), ('expect', ('backtrack', 1)), REST])),
+        ('expectnot', ('seq', [('opt', ('str', 'a')), ('expectnot', ('backtrack', 1)), REST])),
+        ('longest', ('seq', [('opt', ('str', 'ab')), ('longest', [('backtrack', 2), ('backtrack', 1), ('str', 'b')]), REST])),
+        ('left', ('seq', [('opt', ('str', 'a')), ('left', ('str', 'b'), ('backtrack', 2)), REST])),
+        ('rule', ('seq', [('opt', ('str', 'a')), ('ref', 'Back'), REST])),
+    ]
+    for btag, x in BT:
+        idx += 1
+        if not rec.mine(idx):
+            continue
+        G = gen.shape_grammar(x, {'Back': ('backtrack', 1)})
+        run_grammar(rec, G, list(gen.all_strings('ab', 4)), ('backtrack', btag), trace=True)
     rec.count('phaseA_done')
     # Phase B: depth 2 over the reduced leaf set (seed-rotated sample in quick)
     reduced = [('str', 'a'), ('str', 'ab'), ('re', 'a?', False), ('ref', 'Rab')]
